@@ -165,6 +165,9 @@ def reply_mutants(rng, host):
     out.append(("reply-data-on-always", q, ["Wrong usage of `#[sv::data]`"]))
     q = _clone(host); _rm(q, "on_alpha_ok")["data_attr_text"] = "#[sv::data(instantiate, raw)]"
     out.append(("reply-data-instantiate-raw", q, ["cannot be used in pair with `raw`"]))
+    for tag, txt in (("raw-first", "raw, instantiate"), ("opt-between", "raw, opt, instantiate"), ("opt-first", "opt, instantiate, raw"), ("opt-last", "raw, instantiate, opt")):
+        q = _clone(host); _rm(q, "on_alpha_ok")["data_attr_text"] = f"#[sv::data({txt})]"
+        out.append((f"reply-data-instantiate-raw-{tag}", q, ["cannot be used in pair with `raw`"]))
     q = _clone(host); _rm(q, "on_alpha_ok")["data_attr_text"] = "#[sv::data(bogus)]"
     out.append(("reply-data-unknown-arg", q, ["Invalid data parameter"]))
     q = _clone(host); _rm(q, "beta")["payload_attr_text"] = "#[sv::payload(cooked)]"
@@ -191,6 +194,10 @@ def iface_mutants(rng, host):
     out.append(("iface-migrate", q, pid, ["`migrate` is not supported in interfaces"]))
     q = _clone(host); part(q)["trait_generics"] = "<T>"
     out.append(("iface-generics", q, pid, ["Generics on traits are not supported"]))
+    # parameters that are not type parameters are generics too (a defaulted const parameter is otherwise accepted by rustc as well)
+    for tag, txt in (("lifetime", "<'a>"), ("const", "<const N: usize>"), ("const-default", "<const MAX: u32 = 10>"), ("type-default", "<T = u32>")):
+        q = _clone(host); part(q)["trait_generics"] = txt
+        out.append((f"iface-generics-{tag}", q, pid, ["Generics on traits are not supported"]))
     if all(h["ret_err"] == "std" for h in base["handlers"]) or True:
         q = _clone(host); part(q)["no_error_type"] = True
         for h in part(q)["handlers"]:
